@@ -100,3 +100,12 @@ CHECKS.update({
         "tables (accept/raise, layout, numbers vs default-indexed), random tables for the filters.",
    note=STAT_NOTE + "pandas' label-ambiguity rule and groupby-filter algorithm are modelled; that consumers never read the index is established by the exhaustive correspondence."),
 })
+CHECKS.update({
+ 'C06': dict(
+   text="Proof: Properties/C06.v (any dimension and shape) - with precise=False the returned pixels are EXACTLY those above the percentile threshold, not exceeded within the reflected box "
+        "(zeros outside) and outside the margin, no repeats; the box size is the largest k with k^2*ndim <= 4*sep^2; the 8-bit rescale of float images; with precise=True the result is a "
+        "subset, pairwise separated, and every discard is justified by an at-least-as-bright candidate within separation; where_close / drop_close exact; monitors sound. Correspondence: "
+        "model and monitors vs trackpy.find.grey_dilation / where_close / drop_close on integer and float images (plateaus, ties, negative pixels), 2-D/3-D, per-axis separations, margins, "
+        "percentiles; exhaustive 3x3 and 2x2x2 universes in the thorough tier.",
+   note=STAT_NOTE + "np.percentile enters as a parameter (the harness recomputes the threshold independently with numpy); scipy's grey_dilation window/padding and cKDTree.query_pairs are modelled."),
+})
